@@ -19,7 +19,7 @@ variable {K : Type} [Field K] [LinearOrder K] [IsStrictOrderedRing K]
 /-- the first arg-max of the fibre of `o` lies in that fibre, attains the forward value, and
     dominates the whole fibre -/
 theorem argmax_spec (a y : NDArray K) (ha : a.WF) (dim : Option Int) (keep : Bool) (h : maxForward a dim keep = some y)
-    (axes : List Nat) (hax : (match dim with | none => Axes.all | some d => Axes.one d).norm a.shape.length = some axes)
+    (axes : List Nat) (hax : (match dim with | none => Axes.all | some d => Axes.one d).normRed a.shape.length = some axes)
     (o : Idx) (ho : validIdx y.shape o) :
     let j := argExt (fun x y => decide (y < x)) a axes keep o
     validIdx a.shape j ∧ reduceIdx axes keep j = o ∧ y.get o = a.get j ∧
@@ -34,7 +34,7 @@ theorem argmax_spec (a y : NDArray K) (ha : a.WF) (dim : Option Int) (keep : Boo
 theorem max_backward_masked (a y g b : NDArray K) (ha : a.WF) (dim : Option Int) (keep : Bool)
     (h : maxForward a dim keep = some y) (hg : g.WF) (hgs : g.shape = y.shape)
     (hb : maxBackward g a dim keep = some b)
-    (axes : List Nat) (hax : (match dim with | none => Axes.all | some d => Axes.one d).norm a.shape.length = some axes) :
+    (axes : List Nat) (hax : (match dim with | none => Axes.all | some d => Axes.one d).normRed a.shape.length = some axes) :
     b.shape = a.shape ∧ ∀ i, validIdx a.shape i →
       b.get i = if argExt (fun x y => decide (y < x)) a axes keep (reduceIdx axes keep i) = i
                 then g.get (reduceIdx axes keep i) else 0 := by
@@ -60,7 +60,7 @@ theorem max_subgradient_inequality (ι : Type) (s : List ι) (x x' : ι → K) (
 
 /-- the same for `min` (super-gradient): the first arg-min attains the value and is dominated by the fibre -/
 theorem argmin_spec (a y : NDArray K) (ha : a.WF) (dim : Option Int) (keep : Bool) (h : minForward a dim keep = some y)
-    (axes : List Nat) (hax : (match dim with | none => Axes.all | some d => Axes.one d).norm a.shape.length = some axes)
+    (axes : List Nat) (hax : (match dim with | none => Axes.all | some d => Axes.one d).normRed a.shape.length = some axes)
     (o : Idx) (ho : validIdx y.shape o) :
     let j := argExt (fun x y => decide (x < y)) a axes keep o
     validIdx a.shape j ∧ reduceIdx axes keep j = o ∧ y.get o = a.get j ∧
@@ -72,7 +72,7 @@ theorem argmin_spec (a y : NDArray K) (ha : a.WF) (dim : Option Int) (keep : Boo
 theorem min_backward_masked (a y g b : NDArray K) (ha : a.WF) (dim : Option Int) (keep : Bool)
     (h : minForward a dim keep = some y) (hg : g.WF) (hgs : g.shape = y.shape)
     (hb : minBackward g a dim keep = some b)
-    (axes : List Nat) (hax : (match dim with | none => Axes.all | some d => Axes.one d).norm a.shape.length = some axes) :
+    (axes : List Nat) (hax : (match dim with | none => Axes.all | some d => Axes.one d).normRed a.shape.length = some axes) :
     b.shape = a.shape ∧ ∀ i, validIdx a.shape i →
       b.get i = if argExt (fun x y => decide (x < y)) a axes keep (reduceIdx axes keep i) = i
                 then g.get (reduceIdx axes keep i) else 0 := by
